@@ -1,15 +1,63 @@
-(* C15 - decoding arbitrary bytes is total.  Statements only; proofs in TL/NoPanic.v, TL/Total.v
-   (added when those files land). *)
+(* C15 - Decoding arbitrary bytes always ends in a value or an error, never a panic.
+   Statements only; proofs in TL/NoPanic.v, TL/Total.v (helper TL/NPPost.v).
+
+   dec/decode_unknown/decode_named: the decoder model of TL/Codec.v, every Go panic site an
+   explicit DPanic, recursion on fuel with DFuel when it runs out.
+   np_universe: decidable condition on the type descriptors (a type with conditional fields has a
+   flags index within its fields; pointer fields point to types with an id); re-proved on the
+   registry regenerated from the tree in Inst/C15i.v.   hints_ok: vector hints are slice types.
+   inflate: compress/gzip as an arbitrary oracle. *)
 From Coq Require Import NArith List.
-From MTV Require Import Base.Bytes Base.Outcome TL.Types TL.Codec TL.Typing.
+From MTV Require Import Base.Bytes Base.Outcome TL.Types TL.Codec TL.Typing TL.NPPost TL.NoPanic TL.Total.
 Import ListNotations.
 Open Scope N_scope.
 
-(* reading a byte string never reads past the input and never returns more than it holds *)
-Theorem C15_take_bounded : forall n l a r, take n l = Some (a, r) -> n <= blen l /\ l = a ++ r.
-Proof.
-  intros n l a r. unfold take. destruct l as [|x l']; [discriminate|].
-  destruct (N.ltb_spec (blen (x :: l')) n); [discriminate|]. intros [= <- <-].
-  split; [assumption|]. symmetry. apply firstn_skipn.
-Qed.
+(* never panics: for all bytes, hints, universes meeting np_universe, gzip oracles and fuel *)
+Theorem C15_no_panic_unknown : forall U inflate, np_universe U = true ->
+  forall h, hints_ok U h = true -> forall fuel bs, decode_unknown U inflate fuel h bs <> DPanic.
+Proof. exact decode_unknown_no_panic. Qed.
+Print Assumptions C15_no_panic_unknown.
+
+Theorem C15_no_panic_named : forall U inflate, np_universe U = true -> forall fuel tid bs,
+  (match get_struct U tid with Some sd => s_crc sd <> None | None => True end) ->
+  decode_named U inflate fuel tid bs <> DPanic.
+Proof. exact decode_named_no_panic. Qed.
+Print Assumptions C15_no_panic_named.
+
+(* never loops: fuel linear in the input length always suffices (gzip apart) *)
+Theorem C15_terminates : forall U inflate, (forall p, inflate p = None) -> forall h bs,
+  decode_unknown U inflate (fuel_for U bs) h bs <> DFuel /\
+  forall tid, decode_named U inflate (fuel_for U bs) tid bs <> DFuel.
+Proof. exact dec_terminates_nogzip. Qed.
+Print Assumptions C15_terminates.
+
+(* with gzip: relative to the size B of what the oracle inflates and the nesting depth d of
+   gzip_packed objects in the input; no bound in the outer input alone can exist (next theorem) *)
+Theorem C15_terminates_gzip_relative : forall U inflate B d h bs,
+  gz_depth_le inflate B d bs ->
+  let fuel := ((d + 1) * fuel_len U (Nat.max B (length bs)))%nat in
+  decode_unknown U inflate fuel h bs <> DFuel /\
+  forall tid, decode_named U inflate fuel tid bs <> DFuel.
+Proof. exact dec_terminates_gzip_relative. Qed.
+Print Assumptions C15_terminates_gzip_relative.
+
+Theorem C15_gzip_quine_is_out_of_reach : forall fuel, decode_unknown exU inflate_quine fuel [] quine = DFuel.
+Proof. exact gzip_quine_defeats_any_fuel. Qed.
+Print Assumptions C15_gzip_quine_is_out_of_reach.
+
+(* never allocates out of proportion: a slice is sized from a wire count only after the count
+   was compared with the unread bytes (4 per vector element, 16 per container message):
+   the decoder instrumented with a trap on any larger request IS the decoder *)
+Theorem C15_alloc_bounded : forall U inflate x fuel j s,
+  dec_trap U inflate x fuel j s = dec U inflate fuel j s.
+Proof. exact alloc_bounded_run. Qed.
+Print Assumptions C15_alloc_bounded.
+
+(* byte strings and raw reads never exceed what is left *)
+Theorem C15_take_bounded : forall n bs a r, take n bs = Some (a, r) -> n <= blen bs /\ blen a = n /\ bs = a ++ r.
+Proof. exact take_bounded. Qed.
 Print Assumptions C15_take_bounded.
+
+Theorem C15_pop_bytes_bounded : forall l m r, pop_bytes l = Some (m, r) -> (length m + length r <= length l)%nat.
+Proof. exact pop_bytes_bounded. Qed.
+Print Assumptions C15_pop_bytes_bounded.
